@@ -3,6 +3,7 @@ the runner Ops/Multi.v; closed-world theorems over the timer-firing simulator
 Ops/TimedSim.v (Props/C15.v); tie: K2 multi-source port-level replay with the
 proxy scheduler (harness/k2m.py, harness/timed_table.py); oracle: below, a
 direct reading of the property statement on the implementation's log."""
+import sched_prec as sp
 import timed_extra as te
 import timed_table as tt
 from timed_table import view, common_timed, elems, terminal, src_view
@@ -183,6 +184,8 @@ def run(chk):
     # oracle-only families (harness/timed_extra.py): feedback into delay's drain loop; delay observables that fire
     # inside subscribe() or are real timer()s under TestScheduler
     te.run_families(chk, "C15", {"fb_delay": (250, 4000), "dwm_kinds": (300, 4000)})
+    # scheduler precedence (harness/sched_prec.py): operator scheduler vs subscribe-time scheduler vs default
+    sp.run_family(chk, "C15", 400, 6000)
     chk.cov["rule"] = ("per operator: seeded instances (due times 0/5/10/20 ms as float seconds, timedelta or absolute "
                        "datetime incl. one in the past; scheduler passed to the operator or to subscribe; mapper "
                        "tables indexed by invocation, 12% raising) x seeded timelines of hand-driven hot sources on "
@@ -201,6 +204,7 @@ def run(chk):
                        "throw() without scheduler, terminated/Behavior/Replay subjects), are hand-held, or are real "
                        "timer(x)/empty()/of() under TestScheduler; same-instant orders the text leaves open are "
                        "accepted or the case is skipped as a tie (counted)")
+    chk.cov["rule"] += sp.RULE
     chk.cov["operators_modelled"] = NAMES
     return chk.finish(trusted_extra=[
         "multi-source K2 driver harness/k2m.py with its proxy scheduler (integer-millisecond virtual clock, records "
@@ -216,11 +220,14 @@ def run(chk):
         "harness/timed_table.py run_case/warm_up: the warm-up subscription and the clock offset are applied inside "
         "the build callback handed to k2m.run_multi (the harness state is wiped as k2m does after its own warm-up)",
         "harness/timed_extra.py: oracle-only families with their own hand-made hot source, TestScheduler driver and "
-        "references written from the property text (no Coq model behind them)"],
+        "references written from the property text (no Coq model behind them)",
+        sp.TRUSTED],
         assumptions=["timelines are in integer milliseconds; datetime/timedelta arithmetic is exact on them"])
 
 
 def replay(chk, path):
+    if sp.is_replay(path):
+        return sp.replay("C15", path)
     if te.is_family_replay(path):
         return te.replay_family("C15", path)
     return tt.replay_cases("C15", oracle, path)
